@@ -139,7 +139,16 @@ pub fn gen_aux<B: StarkField, E: FieldElement<BaseField = B>>(spec: &Spec, main:
             cols[j][i] = cols[j][i - 1] + r(j) * E::from(main.get(j % spec.width, i - 1));
         }
     }
+    // (C02, additive) aux_assert_last: the last row of aux column 0 carries the publicly known value `aux_last_value`;
+    // the row only takes part in exempt transitions when exemptions >= 2 (a spec with aux_assert_last and exemptions = 1
+    // has no valid trace), so that cell is protected by the assertion alone
+    if spec.aux_assert_last { cols[0][n - 1] = aux_last_value(rands); }
     cols
+}
+
+/// (C02, additive) the value asserted on the last row of aux column 0 when `aux_assert_last` is set
+pub fn aux_last_value<E: FieldElement>(rands: &[E]) -> E {
+    if rands.is_empty() { E::ONE + E::ONE } else { rands[0] + E::ONE }
 }
 
 pub fn assertion_steps(a: &AKind, n: usize) -> (usize, Vec<usize>) {
@@ -267,6 +276,8 @@ impl<B: StarkField + ExtensibleField<2> + ExtensibleField<3>> Air for FamAir<B> 
         if self.spec.aux_width == 0 { return v; }
         v.push(Assertion::single(0, 0, E::ONE));
         for j in 1..self.spec.aux_width { v.push(Assertion::single(j, 0, E::ZERO)); }
+        // (C02, additive) matches the count declared in `new` (aux_width + aux_assert_last)
+        if self.spec.aux_assert_last { v.push(Assertion::single(0, self.spec.n() - 1, aux_last_value(_rands))); }
         v
     }
 }
